@@ -77,11 +77,11 @@ pub struct BlindStats {
     pub bytes_read: u64,
 }
 
-fn listing(c: &Cfb, cap: usize) -> Result<Vec<(String, bool)>, Fail> {
+pub fn listing(c: &Cfb, cap: usize) -> Result<Vec<(String, bool)>, Fail> {
     guard("walk", || c.walk().take(cap).map(|e| (e.path().to_string_lossy().to_string(), e.is_stream())).collect::<Vec<_>>())
 }
 
-fn run_handle(s: &mut cfb::Stream<crate::backend::Io>, script: &[HOp], st: &mut BlindStats) -> Result<(), Fail> {
+pub fn run_handle(s: &mut cfb::Stream<crate::backend::Io>, script: &[HOp], st: &mut BlindStats) -> Result<(), Fail> {
     for h in script {
         st.calls += 1;
         let ok = match h {
@@ -315,6 +315,39 @@ pub fn run_blind(c: &mut Cfb, script: &[BOp], st: &mut BlindStats, trace: &mut V
                 guard("flush", || c.flush())?.ok();
             }
         }
+    }
+    Ok(())
+}
+
+/// Handles that outlive their `CompoundFile`: a handle is opened on up to six listed streams
+/// (small buffer, so that longer streams need refills), reads one window, the compound file is
+/// dropped, and the handles go on being used. Every call must return Ok or Err.
+pub fn orphaned_handles(bytes: &[u8], strict: bool, st: &mut BlindStats, trace: &mut Vec<String>) -> Result<(), Fail> {
+    let io = crate::backend::Io::from_bytes(bytes.to_vec());
+    let c = match guard("open", || crate::engine::open_options(Some(1024), strict).open_with(io))? {
+        Ok(c) => c,
+        Err(_) => return Ok(()),
+    };
+    let mut c = c;
+    let streams: Vec<String> = listing(&c, 400)?.into_iter().filter(|x| x.1).map(|x| x.0).take(6).collect();
+    let mut hs = Vec::new();
+    for p in streams.iter() {
+        if let Ok(mut s) = guard("open_stream", || c.open_stream(p))? {
+            run_handle(&mut s, &[HOp::Read(1024)], st)?;
+            hs.push(s);
+        }
+    }
+    if hs.is_empty() {
+        return Ok(());
+    }
+    trace.push(format!("(compound file dropped with {} handles alive)", hs.len()));
+    guard("drop_compound_file", move || drop(c))?;
+    let script = [HOp::Read(700), HOp::Read(3000), HOp::SeekCur(0), HOp::FillConsume(100), HOp::Pos, HOp::SeekCur(-1), HOp::Len, HOp::ReadToEnd, HOp::SeekCur(0), HOp::SeekEnd(0), HOp::SeekStart(0), HOp::Read(10)];
+    for s in hs.iter_mut() {
+        run_handle(s, &script, st)?;
+    }
+    for s in hs {
+        guard("h_drop", move || drop(s))?;
     }
     Ok(())
 }
